@@ -50,6 +50,9 @@ pub enum SimReply {
     },
     /// The unix socket could not be connected / died before a reply was read.
     Transport(String),
+    /// A reply arrived but could not be read / parsed: cln_rpc reports an RPC
+    /// error without code.
+    Codeless(String),
 }
 
 pub struct StdinPipe {
@@ -384,6 +387,11 @@ where
             data,
         })),
         Ok(SimReply::Transport(m)) => Err(crate::rpc::RpcError::General(anyhow::anyhow!(m))),
+        Ok(SimReply::Codeless(m)) => Err(crate::rpc::RpcError::Rpc(cln_rpc::RpcError {
+            code: None,
+            message: m,
+            data: None,
+        })),
         Err(_) => Err(crate::rpc::RpcError::General(anyhow::anyhow!(
             "simulated connection dropped"
         ))),
